@@ -48,8 +48,44 @@ func exact(in map[string]interface{}, k string) []byte {
 	return r
 }
 
+// "record" layouts: every input of the call is a window into ONE contiguous caller buffer (a subscriber record), so each
+// slice has spare capacity that reaches into the fields placed behind it. Layout 1 places the fields in call order,
+// layout 2 in reverse order. The library must leave the whole record as it was and return what it returns for
+// separately allocated inputs.
+var arena []byte
+var arenaWant []byte
+var arenaOff, arenaMode int
+
+func arenaReset(mode int) {
+	arenaMode = mode
+	if mode == 0 {
+		return
+	}
+	arena = make([]byte, 2048)
+	for i := range arena {
+		arena[i] = 0x5c
+	}
+	arenaWant = append([]byte{}, arena...)
+	arenaOff = 64
+	if mode == 2 {
+		arenaOff = len(arena) - 64
+	}
+}
+
 func exact0(in map[string]interface{}, k string) []byte {
 	b := unhex(in, k)
+	if arenaMode != 0 && len(b) <= 512 && ((arenaMode == 1 && arenaOff+len(b) <= len(arena)-64) || (arenaMode == 2 && arenaOff-len(b) >= 64)) {
+		if arenaMode == 2 {
+			arenaOff -= len(b)
+		}
+		r := arena[arenaOff : arenaOff+len(b)]
+		copy(r, b)
+		copy(arenaWant[arenaOff:], b)
+		if arenaMode == 1 {
+			arenaOff += len(b)
+		}
+		return r
+	}
 	if v, ok := in["reuse"].(bool); ok && v {
 		key := fmt.Sprintf("%s/%d", k, len(b))
 		r, ok := reuseBufs[key]
@@ -243,6 +279,22 @@ func wmnsk(in map[string]interface{}) map[string]interface{} {
 	return out
 }
 
+// the first differing stretch of a against b (hex)
+func diffWindow(a, b []byte) string {
+	i := 0
+	for i < len(a) && i < len(b) && a[i] == b[i] {
+		i++
+	}
+	j := len(a)
+	for j > i && j <= len(b) && a[j-1] == b[j-1] {
+		j--
+	}
+	if j > i+40 {
+		j = i + 40
+	}
+	return fmt.Sprintf("@%d:%s", i, hx(a[i:j]))
+}
+
 func init() {
 	fns := map[string]lineCmd{
 		"F1": milF1, "F2345": milF2345, "GenerateOPC": milOPC, "MilenageGenerate": milGenerate,
@@ -285,6 +337,27 @@ func init() {
 		}
 		if len(dep) > 0 {
 			out["depends_on_buffer_contents"] = dep
+		}
+		for mode := 1; mode <= 2; mode++ {
+			arenaReset(mode)
+			out3 := f(in)
+			handed = nil
+			arenaMode = 0
+			if hx(arena) != hx(arenaWant) {
+				out["wrote_outside_inputs"] = fmt.Sprintf("layout %d: the caller's record reads %s where it held %s", mode, diffWindow(arena, arenaWant), diffWindow(arenaWant, arena))
+			}
+			lay := []string{}
+			for k, v := range out {
+				if k == "prev_now" || k == "wrote_outside_inputs" || k == "mutated_inputs" || k == "depends_on_buffer_contents" || k == "depends_on_input_layout" {
+					continue
+				}
+				if fmt.Sprint(v) != fmt.Sprint(out3[k]) {
+					lay = append(lay, k)
+				}
+			}
+			if len(lay) > 0 {
+				out["depends_on_input_layout"] = fmt.Sprintf("layout %d: %v", mode, lay)
+			}
 		}
 		return out
 	}
